@@ -19,10 +19,10 @@ type OPBLayout struct {
 	WideSpaces    bool `json:"wide,omitempty"`          // several blanks between tokens
 	CRLF          bool `json:"crlf,omitempty"`
 	NoFinalNL     bool `json:"no_final_nl,omitempty"`
-	BlankLines    bool `json:"blank_lines,omitempty"`   // empty lines between constraints
-	TightOperator bool `json:"tight_op,omitempty"`      // ">=3" / "=3" without blank after the operator (allowed by the PB grammar)
-	TightSemi     bool `json:"tight_semi,omitempty"`    // "3;" without blank before the semicolon
-	TightMin      bool `json:"tight_min,omitempty"`     // "min:+1 x1" without blank after "min:"
+	BlankLines    bool `json:"blank_lines,omitempty"`    // empty lines between constraints
+	TightOperator bool `json:"tight_op,omitempty"`       // ">=3" / "=3" without blank after the operator (allowed by the PB grammar)
+	TightSemi     bool `json:"tight_semi,omitempty"`     // "3;" without blank before the semicolon
+	TightMin      bool `json:"tight_min,omitempty"`      // "min:+1 x1" without blank after "min:"
 	TrailingBlank bool `json:"trailing_blank,omitempty"` // blanks after the ';'
 	OmitUnitCoef  bool `json:"omit_unit_coef,omitempty"` // NOT part of the PB format (coefficient is mandatory); never set by the C13 generator
 }
